@@ -39,7 +39,7 @@ let () =
           in
           let m = model_obs f in
           let corr =
-            if starts_with "UNMODELLED" m then "unmodelled" else if m = impl then "same" else "DIFF"
+            if starts_with "UNMODELLED" m then "unmodelled" else if same_obs m impl then "same" else "DIFF"
           in
           let orc = Oracles.oracle f impl in
           print_string (String.concat "\t" [ id; corr; orc; m ] ^ "\n"))
